@@ -66,6 +66,10 @@ func New(pcapDir, indexDir, snapshotDir string, cachedKnownPcaps []*pcapmetadata
 				continue
 			}
 		}
+		if info.PacketCount == 0 {
+			// FromPcap doesn't register pcaps without packets either
+			continue
+		}
 		b.knownPcaps = append(b.knownPcaps, info)
 		b.packetCount += info.PacketCount
 	}
